@@ -409,12 +409,12 @@ def feed_prefixes(ctx, mods, data, offs, case, path):
         ctx.count('from_file_prefix')
         if obs[0] == 'raise':
             ctx.oracle_failure(f'Env.from_file raises {obs[2]} on a truncated environment file '
-                               f'(first {k} of {len(data)} bytes) :: {json.dumps(case)[:300]}',
+                               f':: first {k} of {len(data)} bytes of {json.dumps(case)[:300]}',
                                dict(case, offset=k), key='from_file-raises-' + obs[1])
             return False
         if obs[0] == 'env' and len(obs[1]) > 0:
             ctx.oracle_failure(f'Env.from_file returns entries from a truncated file '
-                               f'(first {k} of {len(data)} bytes) :: {json.dumps(case)[:300]}',
+                               f':: first {k} of {len(data)} bytes of {json.dumps(case)[:300]}',
                                dict(case, offset=k), key='from_file-partial-entry')
             return False
     return True
@@ -447,8 +447,8 @@ def run_dec(ctx, mods, case, out):
         obs = call_from_file(mods, path)
         if obs[0] != 'env' or canon(obs[1]) != want:
             ctx.oracle_failure(f'from_file does not return the pickled environment '
-                               f'(protocol {case["proto"]}, {case["variant"]}) '
-                               f':: {json.dumps(case)[:300]}', case, key='roundtrip-variant')
+                               f':: (protocol {case["proto"]}, {case["variant"]}) '
+                               f'{json.dumps(case)[:300]}', case, key='roundtrip-variant')
     offs, explicit = offsets_for(ctx.rng, len(data), case.get('limit', 700))
     eofs, bad = prefix_classes(ctx, data, offs, case)
     feed_prefixes(ctx, mods, data, offs, case, path)
@@ -526,7 +526,7 @@ def run_caught(ctx, mods, case, out):
     ctx.count('caught_' + case['how'])
     if obs[0] == 'raise' and (model_name in UNREADABLE) and case['how'] == 'natural':
         ctx.oracle_failure(f'Env.from_file raises {obs[2]} on an unreadable environment file '
-                           f'{data!r} :: {json.dumps(case)}', case, key='from_file-raises-' + obs[1])
+                           f':: {data!r} {json.dumps(case)}', case, key='from_file-raises-' + obs[1])
     elif obs[0] == 'raise' and model_name in ('EOFError', 'UnpicklingError'):
         ctx.oracle_failure(f'Env.from_file raises {obs[2]} (raised while unpickling) '
                            f':: {json.dumps(case)}', case, key='from_file-raises-' + obs[1])
@@ -590,7 +590,7 @@ def run_corrupt(ctx, mods, case):
     ctx.count('corrupt_outcome_' + obs[0] + ('_' + obs[1] if obs[0] == 'raise' else ''))
     if obs[0] == 'raise' and obs[1] in UNREADABLE:
         ctx.oracle_failure(f'Env.from_file raises {obs[2]} on a corrupted environment file '
-                           f'({case["mut"]}) :: {json.dumps(case)[:400]}', case,
+                           f':: ({case["mut"]}) {json.dumps(case)[:400]}', case,
                            key='from_file-raises-' + obs[1])
     elif obs[0] == 'raise':
         ctx.count('corrupt_raises_unclassified_' + obs[2])
@@ -724,6 +724,8 @@ def run_fs(ctx, mods, case, out):
                 # the last file written by this (interrupted) write_env is cut short
                 lastname = [n for n, s in env.items() if 'output_dir' in s][-1]
                 p = os.path.join(env[lastname]['output_dir'], FILENAME)
+                if not os.path.isfile(p):
+                    continue            # already reported: write_env did not write it
                 size = os.path.getsize(p)
                 k = int(op[2] * size)
                 with open(p, 'r+b') as fil:
@@ -749,27 +751,27 @@ def run_fs(ctx, mods, case, out):
                     if status == canon(mods['TaskStatus'].DONE):
                         expect[st[1]] = st[2]
             if got is None:
-                ctx.oracle_failure(f'read_env raises {type(res).__name__} (files: '
-                                   f'{sorted((os.path.relpath(p, root), s[0]) for p, s in truth.items())}) '
-                                   f':: {json.dumps(case)[:300]}', case,
+                ctx.oracle_failure(f'read_env raises {type(res).__name__} :: files '
+                                   f'{sorted((os.path.relpath(p, root), s[0]) for p, s in truth.items())} '
+                                   f'in {json.dumps(case)[:300]}', case,
                                    key='read_env-raises-' + exn_class(res))
             else:
                 gotd = {k[1].decode(): v for k, v in got}
                 for name, ent in expect.items():
                     if name not in gotd:
-                        ctx.oracle_failure(f'read_env loses the DONE entry of {name} whose file is intact '
-                                           f':: {json.dumps(case)[:300]}', case, key='read_env-loses-done')
+                        ctx.oracle_failure(f'read_env loses the DONE entry of a task whose file is intact '
+                                           f':: {name} in {json.dumps(case)[:300]}', case, key='read_env-loses-done')
                     elif gotd[name] != ent:
-                        ctx.oracle_failure(f'read_env returns a different entry for {name} than was '
-                                           f'written :: {json.dumps(case)[:300]}', case,
+                        ctx.oracle_failure(f'read_env returns a different entry than was written '
+                                           f':: {name} in {json.dumps(case)[:300]}', case,
                                            key='read_env-entry-differs')
                 for name, ent in gotd.items():
                     if name not in expect:
                         entd = dict(ent[1]) if ent[0] == 'dict' else {}
                         done = entd.get(('str', b'status')) == canon(mods['TaskStatus'].DONE)
                         what = ('reports as DONE' if done else 'returns a non-DONE entry for')
-                        ctx.oracle_failure(f'read_env {what} task {name}, which has no intact file with a '
-                                           f'DONE entry :: {json.dumps(case)[:300]}', case,
+                        ctx.oracle_failure(f'read_env {what} a task which has no intact file with a '
+                                           f'DONE entry :: {name} in {json.dumps(case)[:300]}', case,
                                            key='read_env-reports-done' if done else 'read_env-non-done-entry')
                 if expect:
                     nontrivial[1] = True
